@@ -10,7 +10,7 @@ import ReuseVerif.Lemmas.Download
 import ReuseVerif.Spec.Download
 
 namespace C19
-open Py Model Spec
+open Py Model Spec Model.Download Spec.Download
 
 variable (fetch : Text → Option Text) (e : Env) (missing : List Text) (a : Args) (fs : Fs)
 
